@@ -246,4 +246,19 @@ theorem encAll_nonzero (ske : AESxCBC) (lv : Leaves) (key : Bytes) (xs : List By
         · exact hz
         · exact i1 c' hc'
 
+/-- a block of `n` equally long ciphertexts, none all zero, parses back into them -/
+theorem parse_cipher_block (cs : List Bytes) (n clen : Nat) (hn : 0 < n) (hclen : 0 < clen) (hl : cs.length = n)
+    (hlen : ∀ c ∈ cs, c.length = clen) (hnz : ∀ c ∈ cs, allZero c = false) :
+    parseByCount cs.flatten ((n : Nat) : Int) = .ok cs := by
+  have hflen : cs.flatten.length = cs.length * clen := flatten_length_of_all clen cs hlen
+  have e1 := (C17.wrappers_agree [] cs.flatten n 0 0).2.2
+  rw [e1, C17.parse_by_count cs.flatten _ clen hn (by rw [hflen, hl]; exact Nat.mul_div_cancel_left _ hn)]
+  unfold parseBySizeNat
+  have : clen ≠ 0 := by omega
+  simp only [this, if_false]
+  have := parseLoop_flatten_zeros clen hclen cs 0 cs.flatten.length
+    (fun c hc => ⟨hlen c hc, hnz c hc⟩) (by simp [zeros])
+  simp only [zeros, List.replicate_zero, List.append_nil] at this
+  rw [this]
+
 end SSEPy.Sch
